@@ -1420,17 +1420,15 @@ func (x *scanCtx) c12Targets() {
 	for _, c := range gs.Calls {
 		bad := ""
 		switch c.Op {
-		case OpGet, OpPut, OpPatch, OpDelete:
+		// reads (a Node GET, describing cloud groups) are not actions: the property leaves the code free to
+		// look at anything at any time, e.g. to refresh every cloud group again before a later group's turn
+		case OpPut, OpPatch, OpDelete:
 			if _, ok := a.Node[c.Target]; !ok {
 				bad = "node not in this group's view"
 			}
 		case OpSetDesired, OpAttach, OpTags:
 			if c.Target != g.ASG {
 				bad = "other group's ASG " + c.Target
-			}
-		case OpDescribeASG:
-			if c.Target != g.ASG {
-				bad = "describes other ASGs " + c.Target
 			}
 		case OpTerminateASG:
 			if _, ok := a.ByInst[c.Target]; !ok {
